@@ -11,6 +11,7 @@
 #include <array>
 #include <vector>
 #include <string>
+#include <memory>
 using namespace vf;
 #ifndef CFGNAME
 #define CFGNAME "sse2"
@@ -28,7 +29,7 @@ template<size_t... E> struct RDims {};
 typedef std::array<int,3> Tri;
 
 // ------------------------------------------------------------------------------------ script parsing
-struct WSpec { int op; char rk; int c; bool na; std::vector<Tri> dst, src, src2; };
+struct WSpec { int op; char rk; int c; bool na, keep; std::vector<Tri> dst, src, src2; };
 static inline std::vector<std::string> split(const std::string& s, char d) {
     std::vector<std::string> r; std::string cur;
     for (char ch : s) { if (ch == d) { r.push_back(cur); cur.clear(); } else cur += ch; }
@@ -41,13 +42,15 @@ static inline std::vector<Tri> parse_ranges(const std::string& s) {
     return r;
 }
 static inline int opcode(const std::string& s) { return s == "set" ? 0 : s == "add" ? 1 : s == "sub" ? 2 : s == "mul" ? 3 : 4; }
-// write := op.rk.c.dst[.src[.src2]]   rk: s v e t x f m ; a trailing `n` on the op (e.g. `addn`) = noalias()
+// write := op.rk.c.dst[.src[.src2]]   rk: s v e t x f m a b ; trailing letters on the op: `n` = noalias() is called on
+// the view first, `k` = the write is applied to the view OBJECT of the previous write (stored view, same ranges)
 static inline std::vector<WSpec> parse_script(const char* script) {
     std::vector<WSpec> ws;
     for (auto& w : split(script, '/')) {
         auto f = split(w, '.');
         WSpec s; std::string o = f[0];
-        s.na = !o.empty() && o.back() == 'n'; if (s.na) o.pop_back();
+        s.na = s.keep = false;
+        while (!o.empty() && (o.back() == 'n' || o.back() == 'k')) { if (o.back() == 'n') s.na = true; else s.keep = true; o.pop_back(); }
         s.op = opcode(o); s.rk = f[1][0]; s.c = std::atoi(f[2].c_str());
         s.dst = parse_ranges(f[3]);
         if (f.size() > 4) s.src = parse_ranges(f[4]);
@@ -166,14 +169,21 @@ struct Runner<T, RDims<E...>, Maker, D...> {
             const long MARG = 512;
             std::vector<char> before(lo - MARG, lo), after(hi, hi + MARG);
             std::vector<Poly> ref(NA); for (size_t p = 0; p < NA; ++p) ref[p] = ptok(mktok(0, p));
-            uint64_t val = 0, wseq = 0, rd0 = 0; long nw = 0, nvs = 0, oob = 0; bool ok = true, marg = true; long bad = -1; int badw = -1;
+            uint64_t val = 0, wseq = 0, rd0 = 0; long nw = 0, nvs = 0, oob = 0, unjudged = 0; bool ok = true, marg = true; long bad = -1; int badw = -1;
             auto wsp = parse_script(script);
+            using VT = decltype(Maker::make(*A, wsp[0].dst, rk));
+            std::unique_ptr<VT> held;
+            bool flag = false;          // the harness's own account of the alias flag of the held view object
             for (size_t wi = 0; wi < wsp.size(); ++wi) {
                 const WSpec& w = wsp[wi];
                 T c(w.c);
+                if (!w.keep || !held) { held.reset(new VT(Maker::make(*A, w.dst, rk))); flag = false; }
+                if (w.na) flag = true;
+                const bool guarded = flag && w.rk != 's';
+                if (guarded) flag = false;
                 vf::trace.clear(); vf::trace.on = true;
                 {
-                    auto v = Maker::make(*A, w.dst, rk);
+                    VT& v = *held;
                     if (w.na) v.noalias();
                     switch (w.rk) {
                     case 's': apply_op(w.op, v, c); break;
@@ -213,14 +223,24 @@ struct Runner<T, RDims<E...>, Maker, D...> {
                     long p = sel.pos(jf, dims);
                     ref[p] = papply(w.op, old[p], r);
                 }
+                // an aliased right-hand side without the guard is judged only when source and destination
+                // coincide exactly; otherwise the outcome depends on the traversal (the model predicts it)
+                if ((w.rk == 'a' || w.rk == 'b') && !guarded) {
+                    bool same = true;
+                    for (long jf = 0; jf < sel.total; ++jf) {
+                        if (s1.pos(jf, dims) != sel.pos(jf, dims)) same = false;
+                        if (w.rk == 'b' && s2.pos(jf, dims) != sel.pos(jf, dims)) same = false;
+                    }
+                    if (!same) { for (size_t p = 0; p < NA; ++p) ref[p] = pool.v[A->data()[p].h]; ++unjudged; }
+                }
                 for (size_t p = 0; p < NA && ok; ++p) if (ref[p] != pool.v[A->data()[p].h]) { ok = false; bad = p; badw = (int)wi; }
                 if (std::memcmp(before.data(), lo - MARG, MARG) != 0 || std::memcmp(after.data(), hi, MARG) != 0) marg = false;
                 val = hstep(val, val_digest(A->data(), NA));
                 if (g_verbose) std::printf(" W%zu=[%s]", wi, s.wlist.c_str());
             }
             using V = typename TA::simd_vector_type;
-            std::printf(" | V=%d VAL=%s WSEQ=%s NW=%ld NVS=%ld RD0=%s OOB=%ld ORACLE=%s", (int)V::Size, hex16(val).c_str(), hex16(wseq).c_str(),
-                        nw, nvs, hex16(rd0).c_str(), oob, (ok && marg) ? "ok" : "FAIL");
+            std::printf(" | V=%d VAL=%s WSEQ=%s NW=%ld NVS=%ld RD0=%s UNJ=%ld OOB=%ld ORACLE=%s", (int)V::Size, hex16(val).c_str(), hex16(wseq).c_str(),
+                        nw, nvs, hex16(rd0).c_str(), unjudged, oob, (ok && marg) ? "ok" : "FAIL");
             if (!marg) std::printf(" margin-changed");
             if (!ok) std::printf(" write=%d badpos=%ld got=%s want=%s", badw, bad, pstr(pool.v[A->data()[bad].h]).substr(0, 120).c_str(), pstr(ref[bad]).substr(0, 120).c_str());
             std::printf("\n");
